@@ -1,35 +1,39 @@
+import GdcVerif.Model.ParseCore
 /-
-  Main-header walk of /repo/jpeg2000/codestream/parser.go: `Parser.Parse` up to the first tile-part,
-  `parseMainHeader`, `consumeMainHeader`, `parseSIZ`, `parseCOD` + `parseCodingStyleParams`,
-  `parseQCD`, `parseCOM`, `skipSegment`, and the read helpers (`readUint8/16/32`, `peekMarker`).
-  The parser state `p.offset` is represented by the list of bytes not yet consumed; the two places
-  where the Go code moves the offset BACKWARDS (skipSegment with a length field of 0 or 1) are
-  modelled exactly (the unread list grows again by 2 resp. 1 bytes).
-  COC/QCC/POC/RGN/MCT/MCC/MCO segments and tile-parts are not modelled: the walk answers
-  `unmodelled` when it meets one (the correspondence generator never produces them).
+  /repo/jpeg2000/codestream/parser.go (HEAD, after commits 456a615, 871ae92, e67cccf):
+  `Parser.Parse` — SOC, main header (`consumeMainHeader`: SIZ, COD, COC, QCD, QCC, POC, RGN, COM,
+  unknown segments via `skipSegment`), tile-parts (`parseTile`: SOT, `parseTileHeader`, SOD,
+  `readTileDataWithLength` with its Psot arithmetic, `readTileData`), `mergeTilePart` (tile-part
+  order, TNsot consistency, per-section equality between tile-parts), EOC / end of data.
+
+  The parser state `p.offset` is "how many bytes of the input are consumed"; the model keeps the
+  list of UNREAD bytes and every segment parser returns the number of bytes it consumed, counted
+  from the byte after the marker.  That number may exceed what is left (parseCOD/parseCOC do
+  `p.offset += expected − consumed` without a bounds check) — `List.drop` then leaves nothing
+  unread, and every later read fails exactly as in the Go code (all reads are bounds-checked).
+  `skipSegment` consumes `length` bytes counted from the length field: 0 or 1 for the length
+  fields 0 and 1, i.e. the Go offset moves BACK into the length field.
+  MCT / MCC / MCO segments are not modelled: the walk answers `beyond`.
 -/
 namespace J2kH
+open PC
 
-abbrev Bytes := List Nat
+/-! ## bounds-checked readers (`readUint8/16/32` at offset `i` of the unread bytes) -/
 
-inductive Site
-  | qcdMake    -- parseQCD: make([]byte, length-3) with length < 3
-  | comMake    -- parseCOM: make([]byte, length-4) with length < 4
-deriving Repr, DecidableEq
+def u8 (bs : Bytes) (i : Nat) : Option Nat := if i + 1 ≤ bs.length then some (bs.getD i 0) else none
+def u16 (bs : Bytes) (i : Nat) : Option Nat :=
+  if i + 2 ≤ bs.length then some (bs.getD i 0 * 256 + bs.getD (i + 1) 0) else none
+def u32 (bs : Bytes) (i : Nat) : Option Nat :=
+  if i + 4 ≤ bs.length then
+    some (((bs.getD i 0 * 256 + bs.getD (i + 1) 0) * 256 + bs.getD (i + 2) 0) * 256 + bs.getD (i + 3) 0)
+  else none
+/-- `p.read(buf)` of `n` bytes -/
+def rdN (bs : Bytes) (i n : Nat) : Option Bytes :=
+  if i + n ≤ bs.length then some ((bs.drop i).take n) else none
 
-inductive Outcome (α : Type) where
-  | ok (a : α) | err | panic (s : Site) | unmodelled
-deriving Repr, DecidableEq
-
-def rd8 : Bytes → Option (Nat × Bytes)
-  | a :: r => some (a, r)
-  | _ => none
-def rd16 : Bytes → Option (Nat × Bytes)
-  | a :: b :: r => some (a * 256 + b, r)
-  | _ => none
-def rd32 : Bytes → Option (Nat × Bytes)
-  | a :: b :: c :: d :: r => some (((a * 256 + b) * 256 + c) * 256 + d, r)
-  | _ => none
+def ofOpt {α : Type} : Option α → Except Res α
+  | some a => .ok a
+  | none => .error .err
 
 structure Siz where
   xsiz : Nat
@@ -39,188 +43,573 @@ structure Siz where
   xtsiz : Nat
   ytsiz : Nat
   csiz : Nat
-  comps : List Nat   -- 3·csiz bytes: Ssiz, XRsiz, YRsiz
+  comps : Bytes   -- 3·csiz bytes: Ssiz, XRsiz, YRsiz
 deriving Repr, DecidableEq
 
-structure Cod where
-  scod : Nat
-  prog : Nat
-  layers : Nat
-  mct : Nat
-  levels : Nat
-  cbw : Nat
-  cbh : Nat
-  style : Nat
-  transform : Nat
-  nprec : Nat
+/-- `componentIndexSize` -/
+def cidx (csiz : Nat) : Nat := if csiz > 256 then 2 else 1
+/-- `readComponentIndex` -/
+def rdComp (csiz : Nat) (bs : Bytes) (i : Nat) : Option Nat := if csiz > 256 then u16 bs i else u8 bs i
+
+def zeroSub : Bytes → Bool
+  | _ :: xr :: yr :: rest => xr = 0 || yr = 0 || zeroSub rest
+  | _ => false
+
+/-- `parseSIZ`; `bs` starts at the length field.  Result: (SIZ, bytes consumed, bytes allocated). -/
+def parseSIZ (bs : Bytes) : Except Res (Siz × Nat) × Nat :=
+  match u16 bs 0, u16 bs 2, u32 bs 4, u32 bs 8, u32 bs 12, u32 bs 16, u32 bs 20, u32 bs 24, u32 bs 28, u32 bs 32, u16 bs 36 with
+  | some length, some _, some xsiz, some ysiz, some xosiz, some yosiz, some xtsiz, some ytsiz, some _, some _, some csiz =>
+    -- siz.Components = make([]ComponentSize, Csiz) before the component bytes are read
+    match rdN bs 38 (3 * csiz) with
+    | none => (.error .err, 3 * csiz)
+    | some comps =>
+      if xtsiz = 0 ∨ ytsiz = 0 ∨ xsiz ≤ xosiz ∨ ysiz ≤ yosiz ∨ csiz = 0 then (.error .err, 3 * csiz)
+      else if zeroSub comps then (.error .err, 3 * csiz)
+      else if length ≠ 38 + 3 * csiz then (.error .err, 3 * csiz)
+      else (.ok ({ xsiz, ysiz, xosiz, yosiz, xtsiz, ytsiz, csiz, comps }, 38 + 3 * csiz), 3 * csiz)
+  | _, _, _, _, _, _, _, _, _, _, _ => (.error .err, 0)
+
+/-- `parseCodingStyleParams` at offset `i`: canonical field list (levels, cbw, cbh, style,
+    transform, precinct bytes…) and the number of bytes read -/
+def codingParams (bs : Bytes) (i scod : Nat) : Option (List Nat × Nat) :=
+  match u8 bs i, u8 bs (i + 1), u8 bs (i + 2), u8 bs (i + 3), u8 bs (i + 4) with
+  | some levels, some cbw, some cbh, some style, some transform =>
+    if cbw > 8 ∨ cbh > 8 ∨ cbw + cbh > 8 then none
+    else if scod % 2 = 1 then
+      match rdN bs (i + 5) (levels + 1) with
+      | some pr => some ([levels, cbw, cbh, style, transform] ++ pr, 5 + (levels + 1))
+      | none => none
+    else some ([levels, cbw, cbh, style, transform], 5)
+  | _, _, _, _, _ => none
+
+/-- `parseCOD`: canonical content (what `codEqual` compares) and bytes consumed, which is
+    `max (fields read) (length)` — the skip `p.offset += expected − consumed` is not bounds-checked -/
+def parseCOD (bs : Bytes) : Option (List Nat × Nat) :=
+  match u16 bs 0, u8 bs 2, u8 bs 3, u16 bs 4, u8 bs 6 with
+  | some length, some scod, some prog, some layers, some mct =>
+    match codingParams bs 7 scod with
+    | none => none
+    | some (ps, k) =>
+      let consumed := 5 + k          -- from `start` (after the length field)
+      if consumed + 2 > length then none
+      else some ([scod, prog, layers, mct] ++ ps, length)
+  | _, _, _, _, _ => none
+
+/-- `parseCOC(siz)` -/
+def parseCOC (csiz : Nat) (bs : Bytes) : Option (Nat × List Nat × Nat) :=
+  match u16 bs 0, rdComp csiz bs 2, u8 bs (2 + cidx csiz) with
+  | some length, some comp, some scoc =>
+    match codingParams bs (3 + cidx csiz) scoc with
+    | none => none
+    | some (ps, k) =>
+      let consumed := cidx csiz + 1 + k
+      if consumed + 2 > length then none
+      else some (comp, scoc :: ps, length)
+  | _, _, _ => none
+
+/-- `parseQCD`: (Sqcd :: SPqcd, consumed, allocated) -/
+def parseQCD (bs : Bytes) : Except Res (List Nat × Nat) × Nat :=
+  match u16 bs 0, u8 bs 2 with
+  | some length, some sqcd =>
+    if length < 3 then (.error .err, 0)                       -- commit 456a615
+    else if (length : Int) - 3 < 0 then (.error (.panic .j2kMake), 0)   -- make([]byte, dataLength)
+    else match rdN bs 3 (length - 3) with
+      | some sp => (.ok (sqcd :: sp, length), length - 3)
+      | none => (.error .err, length - 3)
+  | _, _ => (.error .err, 0)
+
+/-- `parseQCC(siz)` -/
+def parseQCC (csiz : Nat) (bs : Bytes) : Except Res (Nat × List Nat × Nat) × Nat :=
+  match u16 bs 0, rdComp csiz bs 2, u8 bs (2 + cidx csiz) with
+  | some length, some comp, some sqcc =>
+    if length < 3 + cidx csiz then (.error .err, 0)
+    else if (length : Int) - 3 - cidx csiz < 0 then (.error (.panic .j2kMake), 0)
+    else
+      let n := length - 3 - cidx csiz
+      match rdN bs (3 + cidx csiz) n with
+      | some sp => (.ok (comp, sqcc :: sp, length), n)
+      | none => (.error .err, n)
+  | _, _, _ => (.error .err, 0)
+
+/-- entries of a POC segment: rs, cs, ly(2), re, ce, pp -/
+def pocEntries (csiz : Nat) (bs : Bytes) : Nat → Nat → Option (List (List Nat))
+  | 0, _ => some []
+  | n + 1, i =>
+    let c := cidx csiz
+    match u8 bs i, rdComp csiz bs (i + 1), u16 bs (i + 1 + c), u8 bs (i + 3 + c), rdComp csiz bs (i + 4 + c), u8 bs (i + 4 + 2 * c) with
+    | some rs, some cs, some ly, some re, some ce, some pp =>
+      match pocEntries csiz bs n (i + 5 + 2 * c) with
+      | some es => some ([rs, cs, ly, re, ce, pp] :: es)
+      | none => none
+    | _, _, _, _, _, _ => none
+
+/-- `parsePOC(siz)`: (entries, consumed, allocated) -/
+def parsePOC (csiz : Nat) (bs : Bytes) : Except Res (List (List Nat) × Nat) × Nat :=
+  match u16 bs 0 with
+  | none => (.error .err, 0)
+  | some length =>
+    let entryLen := 5 + 2 * cidx csiz
+    -- remaining = length − 2 as a signed int
+    if length < 2 + entryLen ∨ (length - 2) % entryLen ≠ 0 then (.error .err, 0)
+    else
+      let n := (length - 2) / entryLen
+      match pocEntries csiz bs n 2 with
+      | some es => (.ok (es, length), 12 * n)
+      | none => (.error .err, 12 * n)
+
+/-- `parseRGN(siz)`: ([Crgn, Srgn, SPrgn], consumed, allocated) -/
+def parseRGN (csiz : Nat) (bs : Bytes) : Except Res (List Nat × Nat) × Nat :=
+  match u16 bs 0 with
+  | none => (.error .err, 0)
+  | some length =>
+    let c := cidx csiz
+    if length < 4 + c then (.error .err, 0)
+    else match rdComp csiz bs 2, u8 bs (2 + c), u8 bs (3 + c) with
+      | some crgn, some srgn, some sprgn =>
+        let remain := length - (4 + c)
+        if remain > 0 then
+          match rdN bs (4 + c) remain with
+          | some _ => (.ok ([crgn, srgn, sprgn], length), remain)
+          | none => (.error .err, remain)
+        else (.ok ([crgn, srgn, sprgn], 4 + c), 0)
+      | _, _, _ => (.error .err, 0)
+
+/-- `parseCOM`: (consumed, allocated) -/
+def parseCOM (bs : Bytes) : Except Res Nat × Nat :=
+  match u16 bs 0, u16 bs 2 with
+  | some length, some _ =>
+    if length < 4 then (.error .err, 0)                        -- commit 456a615
+    else if (length : Int) - 4 < 0 then (.error (.panic .j2kMake), 0)
+    else match rdN bs 4 (length - 4) with
+      | some _ => (.ok length, length - 4)
+      | none => (.error .err, length - 4)
+  | _, _ => (.error .err, 0)
+
+/-- `skipSegment`: bytes consumed counted from the length field (`length` itself: 0 and 1 step
+    back into the length field); error when that exceeds what is unread -/
+def skipSegment (bs : Bytes) : Option Nat :=
+  match u16 bs 0 with
+  | none => none
+  | some length => if length > bs.length then none else some length
+
+/-- `parseSOT`: (Isot, Psot, TPsot, TNsot); always 10 bytes -/
+def parseSOT (bs : Bytes) : Option (Nat × Nat × Nat × Nat) :=
+  match u16 bs 0, u16 bs 2, u32 bs 4, u8 bs 8, u8 bs 9 with
+  | some length, some isot, some psot, some tp, some tn =>
+    if length ≠ 10 then none else some (isot, psot, tp, tn)
+  | _, _, _, _, _ => none
+
+/-- `readTileData`: stop in front of `0xFF m` with `m ≠ 0 ∧ m ≥ 0x4F`; returns what is left unread -/
+def readTileData : Bytes → Bytes
+  | a :: b :: rest => if a = 0xFF ∧ b ≠ 0 ∧ b ≥ 0x4F then a :: b :: rest else readTileData (b :: rest)
+  | [_] => []
+  | [] => []
+
+theorem readTileData_le (bs : Bytes) : (readTileData bs).length ≤ bs.length := by
+  induction bs with
+  | nil => simp [readTileData]
+  | cons a tl ih =>
+    cases tl with
+    | nil => simp [readTileData]
+    | cons b rest =>
+      unfold readTileData
+      split
+      · exact Nat.le_refl _
+      · have := ih; simp at this ⊢; omega
+
+/-- `readTileDataWithLength(tileStart, psot)` on the unread bytes after SOD; `consumed` =
+    bytes from the SOT marker up to here.  Returns what is left unread. -/
+def readTileDataWithLength (bs : Bytes) (consumed psot : Nat) : Bytes :=
+  if psot = 0 then readTileData bs
+  else if psot < consumed then readTileData bs
+  else if psot - consumed > bs.length then readTileData bs
+  else bs.drop (psot - consumed)
+
+theorem readTileDataWithLength_le (bs : Bytes) (c p : Nat) : (readTileDataWithLength bs c p).length ≤ bs.length := by
+  unfold readTileDataWithLength
+  split
+  · exact readTileData_le bs
+  · split
+    · exact readTileData_le bs
+    · split
+      · exact readTileData_le bs
+      · simp [List.length_drop]
+
+/-! ## parser state -/
+
+/-- what `mergeTilePart` keeps per tile index -/
+structure TileRec where
+  idx : Nat
+  nextTP : Nat
+  total : Nat
+  cod : Option (List Nat) := none
+  qcd : Option (List Nat) := none
+  coc : List (Nat × List Nat) := []
+  qcc : List (Nat × List Nat) := []
+  poc : List (List (List Nat)) := []
+  rgn : List (List Nat) := []
+  dataLen : Nat := 0
 deriving Repr, DecidableEq
 
-structure Hdr where
+/-- the tile-part being parsed -/
+structure Part where
+  idx : Nat
+  psot : Nat
+  tp : Nat
+  tn : Nat
+  startUnread : Nat        -- unread bytes when the SOT marker was met
+  cod : Option (List Nat) := none
+  qcd : Option (List Nat) := none
+  coc : List (Nat × List Nat) := []
+  qcc : List (Nat × List Nat) := []
+  poc : List (List (List Nat)) := []
+  rgn : List (List Nat) := []
+deriving Repr, DecidableEq
+
+inductive Phase | main | tiles | thdr
+deriving Repr, DecidableEq
+
+structure St where
+  phase : Phase := .main
   siz : Option Siz := none
-  cod : Option Cod := none
-  qcd : Option (Nat × Nat) := none   -- (Sqcd, len SPqcd)
+  cod : Option (List Nat) := none
+  qcd : Option (List Nat) := none
+  coc : List (Nat × List Nat) := []
+  qcc : List (Nat × List Nat) := []
+  npoc : Nat := 0
+  nrgn : Nat := 0
   ncom : Nat := 0
+  part : Option Part := none
+  tiles : List TileRec := []
   allocs : List Nat := []
 deriving Repr, DecidableEq
 
-/-- `parseSIZ`; input starts at the length field -/
-def parseSIZ (bs : Bytes) : Option (Siz × Bytes × Nat) := do
-  let (length, r) ← rd16 bs
-  let (_rsiz, r) ← rd16 r
-  let (xsiz, r) ← rd32 r
-  let (ysiz, r) ← rd32 r
-  let (xosiz, r) ← rd32 r
-  let (yosiz, r) ← rd32 r
-  let (xtsiz, r) ← rd32 r
-  let (ytsiz, r) ← rd32 r
-  let (_xtosiz, r) ← rd32 r
-  let (_ytosiz, r) ← rd32 r
-  let (csiz, r) ← rd16 r
-  if r.length < 3 * csiz then none
-  else if length ≠ 38 + 3 * csiz then none
-  else some ({ xsiz, ysiz, xosiz, yosiz, xtsiz, ytsiz, csiz, comps := r.take (3 * csiz) }, r.drop (3 * csiz), 3 * csiz)
+def St.csiz (st : St) : Nat := match st.siz with | some s => s.csiz | none => 0
+def St.al (st : St) (a : Nat) : St := { st with allocs := st.allocs ++ [a] }
 
-/-- `parseCOD`; input starts at the length field -/
-def parseCOD (bs : Bytes) : Option (Cod × Bytes × Nat) := do
-  let (length, r) ← rd16 bs
-  let (scod, r) ← rd8 r
-  let (prog, r) ← rd8 r
-  let (layers, r) ← rd16 r
-  let (mct, r) ← rd8 r
-  let (levels, r) ← rd8 r
-  let (cbw, r) ← rd8 r
-  let (cbh, r) ← rd8 r
-  let (style, r) ← rd8 r
-  let (transform, r) ← rd8 r
-  let nprec := if scod % 2 = 1 then levels + 1 else 0
-  if r.length < nprec then none
-  else
-    let consumed := 10 + nprec
-    -- expected = length - 2 as a signed int: consumed > expected ⇒ error
-    if consumed + 2 > length then none
+/-- map insert with the "duplicate must be equal" rule of mainCOC / handleCOC; `none` = error -/
+def putEq (m : List (Nat × List Nat)) (k : Nat) (v : List Nat) : Option (List (Nat × List Nat)) :=
+  match m.find? (·.1 = k) with
+  | some (_, v') => if v' = v then some m else none
+  | none => some (m ++ [(k, v)])
+
+/-- mergeCOCSection / mergeQCCSection: every component of the part either new or equal -/
+def mergeMap (ex : List (Nat × List Nat)) : List (Nat × List Nat) → Option (List (Nat × List Nat))
+  | [] => some ex
+  | (k, v) :: rest =>
+    match putEq ex k v with
+    | some ex' => mergeMap ex' rest
+    | none => none
+
+def mergeOpt (ex pt : Option (List Nat)) : Option (Option (List Nat)) :=
+  match pt, ex with
+  | none, _ => some ex
+  | some p, none => some (some p)
+  | some p, some e => if e = p then some ex else none
+
+def mergeList {α : Type} [DecidableEq α] (ex pt : List α) : Option (List α) :=
+  if pt.length = 0 then some ex
+  else if ex.length = 0 then some pt
+  else if ex = pt then some ex else none
+
+/-- `mergeTilePart`: `none` = error -/
+def mergeTilePart (tiles : List TileRec) (p : Part) (dataLen : Nat) : Option (List TileRec) :=
+  match tiles.findIdx? (·.idx = p.idx) with
+  | none =>
+    if p.tp ≠ 0 then none
     else
-      -- p.offset += expected - consumed, without a bounds check (later reads check)
-      some ({ scod, prog, layers, mct, levels, cbw, cbh, style, transform, nprec },
-            (r.drop nprec).drop (length - 2 - consumed), 2 * nprec)
+      let nextTP := (p.tp + 1) % 256
+      if p.tn ≠ 0 ∧ nextTP > p.tn then none
+      else
+        let t : TileRec := { idx := p.idx, nextTP := nextTP, total := p.tn, cod := p.cod, qcd := p.qcd, coc := p.coc, qcc := p.qcc, poc := p.poc, rgn := p.rgn, dataLen := dataLen }
+        some (tiles ++ [t])
+  | some k =>
+    match tiles[k]? with
+    | none => none
+    | some t =>
+      if p.tp ≠ t.nextTP then none
+      else if t.total ≠ 0 ∧ p.tn ≠ 0 ∧ p.tn ≠ t.total then none
+      else
+        let total := if t.total = 0 ∧ p.tn ≠ 0 then p.tn else t.total
+        let nextTP := (t.nextTP + 1) % 256
+        if total ≠ 0 ∧ nextTP > total then none
+        else
+          match mergeOpt t.cod p.cod, mergeOpt t.qcd p.qcd, mergeMap t.coc p.coc, mergeMap t.qcc p.qcc,
+                mergeList t.poc p.poc, mergeList t.rgn p.rgn with
+          | some cod, some qcd, some coc, some qcc, some poc, some rgn =>
+            let t' : TileRec := { t with nextTP := nextTP, total := total, cod := cod, qcd := qcd, coc := coc, qcc := qcc, poc := poc, rgn := rgn, dataLen := t.dataLen + dataLen }
+            some (tiles.set k t')
+          | _, _, _, _, _, _ => none
 
-/-- `parseQCD` -/
-def parseQCD (bs : Bytes) : Outcome ((Nat × Nat) × Bytes × Nat) :=
-  match rd16 bs with
-  | none => .err
-  | some (length, r) =>
-    match rd8 r with
-    | none => .err
-    | some (sqcd, r) =>
-      if length < 3 then .panic .qcdMake
-      else if r.length < length - 3 then .err
-      else .ok ((sqcd, length - 3), r.drop (length - 3), length - 3)
+def isBeyond (m : Nat) : Bool := m = 0xFF74 || m = 0xFF75 || m = 0xFF77
 
-/-- `parseCOM` -/
-def parseCOM (bs : Bytes) : Outcome (Bytes × Nat) :=
-  match rd16 bs with
-  | none => .err
-  | some (length, r) =>
-    match rd16 r with
-    | none => .err
-    | some (_rcom, r) =>
-      if length < 4 then .panic .comMake
-      else if r.length < length - 4 then .err
-      else .ok (r.drop (length - 4), length - 4)
+/-- continue after a segment that consumed `k` bytes behind the marker -/
+def next (st : St) (bs : Bytes) (k : Nat) : Step St := .more st ((bs.drop 2).drop k)
 
-/-- `skipSegment`; `bs` starts at the length field.  `skip = length − 2` may be −2 or −1: the
-    offset then moves back INTO the length field. -/
-def skipSegment (bs : Bytes) : Option Bytes :=
-  match bs with
-  | hi :: lo :: r =>
-    let length := hi * 256 + lo
-    if length = 0 then some (hi :: lo :: r)
-    else if length = 1 then some (lo :: r)
-    else if r.length < length - 2 then none
-    else some (r.drop (length - 2))
-  | _ => none
+/-- one turn in the tile sequence (`Parse` loop): `bs` unread, at a marker position -/
+def tilesTurn (st : St) (bs : Bytes) : Step St :=
+  match u16 bs 0 with
+  | none => .done st .ok                       -- peekMarker: io.EOF ⇒ break
+  | some m =>
+    if m = 0xFFD9 then .done st .ok
+    else if m = 0xFF90 then
+      match parseSOT (bs.drop 2) with
+      | none => .done st .err
+      | some (isot, psot, tp, tn) =>
+        .more { st with phase := .thdr, part := some { idx := isot, psot, tp, tn, startUnread := bs.length } }
+              ((bs.drop 2).drop 10)
+    else .done st .err
 
-theorem skipSegment_le {bs r : Bytes} (h : skipSegment bs = some r) : r.length ≤ bs.length := by
-  match bs, h with
-  | hi :: lo :: tl, h =>
-    unfold skipSegment at h
-    simp only at h
-    split at h
-    · injection h with h; subst h; simp
-    · split at h
-      · injection h with h; subst h; simp
-      · split at h
-        · cases h
-        · injection h with h; subst h; simp [List.length_drop]; omega
+/-! ### main-header handlers (`mainSIZ`, `mainCOD`, …): `bs` starts at the marker -/
 
-def isUnmodelled (m : Nat) : Bool :=
-  m = 0xFF53 || m = 0xFF5D || m = 0xFF5F || m = 0xFF5E || m = 0xFF74 || m = 0xFF75 || m = 0xFF77
+def mSIZ (st : St) (bs : Bytes) : Step St :=
+  if st.siz.isSome then .done st .err
+  else match parseSIZ (bs.drop 2) with
+    | (.ok (s, k), a) => next ({ st with siz := some s }.al a) bs k
+    | (.error e, a) => .done (st.al a) e
 
-/-- what happened at the end of the main header -/
-inductive Stop | eoc | sot
-deriving Repr, DecidableEq
+def mCOD (st : St) (bs : Bytes) : Step St :=
+  if st.siz.isNone ∨ st.cod.isSome then .done st .err
+  else match parseCOD (bs.drop 2) with
+    | some (c, k) => next ({ st with cod := some c }.al (2 * c.length)) bs k
+    | none => .done st .err
 
-/-- `consumeMainHeader`.  Measure: the number of unread bytes; every iteration consumes the two
-    marker bytes and the segment handlers never give back more than the two length bytes… which
-    they only do after having consumed them, so the net progress per iteration is ≥ 2. -/
-def walk (h : Hdr) (bs : Bytes) : Outcome (Hdr × Stop) :=
-  match hb : bs with
-  | a :: b :: rest =>
-    let m := a * 256 + b
-    if m = 0xFF90 then .ok (h, .sot)
-    else if m = 0xFFD9 then .ok (h, .eoc)
-    else if m = 0xFF51 then
-      if h.siz.isSome then .err
-      else match hp : parseSIZ rest with
-        | none => .err
-        | some (s, r, al) =>
-          if hl : r.length ≤ rest.length then walk { h with siz := some s, allocs := h.allocs ++ [al] } r else .err
-    else if m = 0xFF52 then
-      if h.siz.isNone ∨ h.cod.isSome then .err
-      else match hp : parseCOD rest with
-        | none => .err
-        | some (c, r, al) =>
-          if hl : r.length ≤ rest.length then walk { h with cod := some c, allocs := h.allocs ++ [al] } r else .err
-    else if m = 0xFF5C then
-      if h.siz.isNone ∨ h.qcd.isSome then .err
-      else match hp : parseQCD rest with
-        | .ok (q, r, al) =>
-          if hl : r.length ≤ rest.length then walk { h with qcd := some q, allocs := h.allocs ++ [al] } r else .err
-        | .err => .err
-        | .panic s => .panic s
-        | .unmodelled => .unmodelled
-    else if m = 0xFF64 then
-      if h.siz.isNone then .err
-      else match hp : parseCOM rest with
-        | .ok (r, al) =>
-          if hl : r.length ≤ rest.length then walk { h with ncom := h.ncom + 1, allocs := h.allocs ++ [al] } r else .err
-        | .err => .err
-        | .panic s => .panic s
-        | .unmodelled => .unmodelled
-    else if isUnmodelled m then .unmodelled
-    else
-      if h.siz.isNone then .err
-      else match hp : skipSegment rest with
-        | none => .err
-        | some r =>
-          if hl : r.length ≤ rest.length then walk h r else .err
-  | _ => .err
-termination_by bs.length
-decreasing_by all_goals (subst hb; simp; omega)
+def mCOC (st : St) (bs : Bytes) : Step St :=
+  if st.siz.isNone ∨ st.cod.isNone then .done st .err
+  else match parseCOC st.csiz (bs.drop 2) with
+    | some (comp, c, k) =>
+      match putEq st.coc comp c with
+      | some m' => next ({ st with coc := m' }.al (2 * c.length)) bs k
+      | none => .done st .err
+    | none => .done st .err
 
-/-- `Parser.Parse` restricted to codestreams without tile-parts: `ok` carries the parsed header -/
-def parse (bs : Bytes) : Outcome Hdr :=
-  match bs with
-  | a :: b :: rest =>
-    if a * 256 + b ≠ 0xFF4F then .err
-    else match walk {} rest with
-      | .ok (h, stop) =>
-        if h.siz.isNone ∨ h.cod.isNone ∨ h.qcd.isNone then .err
-        else match stop with
-          | .eoc => .ok h
-          | .sot => .unmodelled
-      | .err => .err
-      | .panic s => .panic s
-      | .unmodelled => .unmodelled
-  | _ => .err
+def mQCD (st : St) (bs : Bytes) : Step St :=
+  if st.siz.isNone ∨ st.qcd.isSome then .done st .err
+  else match parseQCD (bs.drop 2) with
+    | (.ok (q, k), a) => next ({ st with qcd := some q }.al a) bs k
+    | (.error e, a) => .done (st.al a) e
+
+def mQCC (st : St) (bs : Bytes) : Step St :=
+  if st.siz.isNone ∨ st.qcd.isNone then .done st .err
+  else match parseQCC st.csiz (bs.drop 2) with
+    | (.ok (comp, q, k), a) =>
+      match putEq st.qcc comp q with
+      | some m' => next ({ st with qcc := m' }.al a) bs k
+      | none => .done (st.al a) .err
+    | (.error e, a) => .done (st.al a) e
+
+def mPOC (st : St) (bs : Bytes) : Step St :=
+  if st.siz.isNone ∨ st.cod.isNone then .done st .err
+  else match parsePOC st.csiz (bs.drop 2) with
+    | (.ok (_, k), a) => next ({ st with npoc := st.npoc + 1 }.al a) bs k
+    | (.error e, a) => .done (st.al a) e
+
+def mRGN (st : St) (bs : Bytes) : Step St :=
+  if st.siz.isNone then .done st .err
+  else match parseRGN st.csiz (bs.drop 2) with
+    | (.ok (_, k), a) => next ({ st with nrgn := st.nrgn + 1 }.al a) bs k
+    | (.error e, a) => .done (st.al a) e
+
+def mCOM (st : St) (bs : Bytes) : Step St :=
+  if st.siz.isNone then .done st .err
+  else match parseCOM (bs.drop 2) with
+    | (.ok k, a) => next ({ st with ncom := st.ncom + 1 }.al a) bs k
+    | (.error e, a) => .done (st.al a) e
+
+def mSkip (st : St) (bs : Bytes) : Step St :=
+  if st.siz.isNone then .done st .err
+  else match skipSegment (bs.drop 2) with
+    | some k => next st bs k
+    | none => .done st .err
+
+/-- SOT or EOC ends the main header: required segments, then the tile loop takes over -/
+def mEnd (st : St) (bs : Bytes) : Step St :=
+  if st.siz.isNone ∨ st.cod.isNone ∨ st.qcd.isNone then .done st .err
+  else tilesTurn { st with phase := .tiles } bs
+
+/-- one turn of `consumeMainHeader`; `m` is the peeked marker -/
+def mainTurn (st : St) (bs : Bytes) (m : Nat) : Step St :=
+  if m = 0xFF90 ∨ m = 0xFFD9 then mEnd st bs
+  else if m = 0xFF51 then mSIZ st bs
+  else if m = 0xFF52 then mCOD st bs
+  else if m = 0xFF53 then mCOC st bs
+  else if m = 0xFF5C then mQCD st bs
+  else if m = 0xFF5D then mQCC st bs
+  else if m = 0xFF5F then mPOC st bs
+  else if m = 0xFF5E then mRGN st bs
+  else if m = 0xFF64 then mCOM st bs
+  else if isBeyond m then .done st .beyond
+  else mSkip st bs
+
+/-! ### tile-part header handlers (`handleCOD`, …) -/
+
+/-- SOD: tile data by Psot or by marker scan, then mergeTilePart -/
+def sodTurn (st : St) (p : Part) (bs : Bytes) : Step St :=
+  match mergeTilePart st.tiles p
+      ((bs.drop 2).length - (readTileDataWithLength (bs.drop 2) (p.startUnread - (bs.drop 2).length) p.psot).length) with
+  | some ts => .more { st with phase := .tiles, part := none, tiles := ts }
+                 (readTileDataWithLength (bs.drop 2) (p.startUnread - (bs.drop 2).length) p.psot)
+  | none => .done st .err
+
+def tCOD (st : St) (p : Part) (bs : Bytes) : Step St :=
+  match parseCOD (bs.drop 2) with
+  | some (c, k) => next ({ st with part := some { p with cod := some c } }.al (2 * c.length)) bs k
+  | none => .done st .err
+
+def tCOC (st : St) (p : Part) (bs : Bytes) : Step St :=
+  match parseCOC st.csiz (bs.drop 2) with
+  | some (comp, c, k) =>
+    match putEq p.coc comp c with
+    | some m' => next ({ st with part := some { p with coc := m' } }.al (2 * c.length)) bs k
+    | none => .done st .err
+  | none => .done st .err
+
+def tQCD (st : St) (p : Part) (bs : Bytes) : Step St :=
+  match parseQCD (bs.drop 2) with
+  | (.ok (q, k), a) => next ({ st with part := some { p with qcd := some q } }.al a) bs k
+  | (.error e, a) => .done (st.al a) e
+
+def tQCC (st : St) (p : Part) (bs : Bytes) : Step St :=
+  match parseQCC st.csiz (bs.drop 2) with
+  | (.ok (comp, q, k), a) =>
+    match putEq p.qcc comp q with
+    | some m' => next ({ st with part := some { p with qcc := m' } }.al a) bs k
+    | none => .done (st.al a) .err
+  | (.error e, a) => .done (st.al a) e
+
+def tPOC (st : St) (p : Part) (bs : Bytes) : Step St :=
+  match parsePOC st.csiz (bs.drop 2) with
+  | (.ok (es, k), a) => next ({ st with part := some { p with poc := p.poc ++ [es] } }.al a) bs k
+  | (.error e, a) => .done (st.al a) e
+
+def tRGN (st : St) (p : Part) (bs : Bytes) : Step St :=
+  match parseRGN st.csiz (bs.drop 2) with
+  | (.ok (r, k), a) => next ({ st with part := some { p with rgn := p.rgn ++ [r] } }.al a) bs k
+  | (.error e, a) => .done (st.al a) e
+
+def tSkip (st : St) (bs : Bytes) : Step St :=
+  match skipSegment (bs.drop 2) with
+  | some k => next st bs k
+  | none => .done st .err
+
+/-- one turn of `parseTileHeader` for the tile-part `p`; `m` is the peeked marker -/
+def thdrTurn (st : St) (p : Part) (bs : Bytes) (m : Nat) : Step St :=
+  if m = 0xFF93 then sodTurn st p bs
+  else if m = 0xFF52 then tCOD st p bs
+  else if m = 0xFF53 then tCOC st p bs
+  else if m = 0xFF5C then tQCD st p bs
+  else if m = 0xFF5D then tQCC st p bs
+  else if m = 0xFF5F then tPOC st p bs
+  else if m = 0xFF5E then tRGN st p bs
+  else if isBeyond m then .done st .beyond
+  else tSkip st bs
+
+/-- one turn of `consumeMainHeader` / `parseTileHeader` / the tile loop of `Parse` -/
+def step (st : St) (bs : Bytes) : Step St :=
+  match st.phase with
+  | .tiles => tilesTurn st bs
+  | .main =>
+    match u16 bs 0 with
+    | none => .done st .err
+    | some m => mainTurn st bs m
+  | .thdr =>
+    match st.part, u16 bs 0 with
+    | some p, some m => thdrTurn st p bs m
+    | _, _ => .done st .err
+
+/-- a turn that continues leaves fewer unread bytes -/
+def Shrinks (bs : Bytes) : Step St → Prop
+  | .more _ r => r.length < bs.length
+  | .done _ _ => True
+
+theorem u16_len {bs : Bytes} {i v : Nat} (h : u16 bs i = some v) : i + 2 ≤ bs.length := by
+  unfold u16 at h; split at h
+  · assumption
+  · cases h
+
+theorem next_shrinks (st : St) {bs : Bytes} (k : Nat) {m : Nat} (hm : u16 bs 0 = some m) :
+    Shrinks bs (next st bs k) := by
+  have := u16_len hm
+  simp only [next, Shrinks, List.length_drop]; omega
+
+theorem tilesTurn_shrinks (st : St) (bs : Bytes) : Shrinks bs (tilesTurn st bs) := by
+  unfold tilesTurn
+  split
+  · trivial
+  · rename_i m hm
+    have := u16_len hm
+    split
+    · trivial
+    · split
+      · split
+        · trivial
+        · simp only [Shrinks, List.length_drop]; omega
+      · trivial
+
+macro "shrink_handler" hm:ident : tactic =>
+  `(tactic| (repeat' split) <;> first | trivial | exact next_shrinks _ _ $hm)
+
+theorem mainTurn_shrinks (st : St) {bs : Bytes} {m : Nat} (hm : u16 bs 0 = some m) :
+    Shrinks bs (mainTurn st bs m) := by
+  unfold mainTurn
+  repeat' split
+  · unfold mEnd; split
+    · trivial
+    · exact tilesTurn_shrinks _ _
+  · unfold mSIZ; shrink_handler hm
+  · unfold mCOD; shrink_handler hm
+  · unfold mCOC; shrink_handler hm
+  · unfold mQCD; shrink_handler hm
+  · unfold mQCC; shrink_handler hm
+  · unfold mPOC; shrink_handler hm
+  · unfold mRGN; shrink_handler hm
+  · unfold mCOM; shrink_handler hm
+  · trivial
+  · unfold mSkip; shrink_handler hm
+
+theorem sodTurn_shrinks (st : St) (p : Part) {bs : Bytes} {m : Nat} (hm : u16 bs 0 = some m) :
+    Shrinks bs (sodTurn st p bs) := by
+  have hl := u16_len hm
+  unfold sodTurn
+  split
+  · have := readTileDataWithLength_le (bs.drop 2) (p.startUnread - (bs.drop 2).length) p.psot
+    simp only [Shrinks, List.length_drop] at this ⊢; omega
+  · trivial
+
+theorem thdrTurn_shrinks (st : St) (p : Part) {bs : Bytes} {m : Nat} (hm : u16 bs 0 = some m) :
+    Shrinks bs (thdrTurn st p bs m) := by
+  unfold thdrTurn
+  repeat' split
+  · exact sodTurn_shrinks _ _ hm
+  · unfold tCOD; shrink_handler hm
+  · unfold tCOC; shrink_handler hm
+  · unfold tQCD; shrink_handler hm
+  · unfold tQCC; shrink_handler hm
+  · unfold tPOC; shrink_handler hm
+  · unfold tRGN; shrink_handler hm
+  · trivial
+  · unfold tSkip; shrink_handler hm
+
+theorem step_shrinks (st : St) (bs : Bytes) : Shrinks bs (step st bs) := by
+  unfold step
+  split
+  · exact tilesTurn_shrinks _ _
+  · split
+    · trivial
+    · exact mainTurn_shrinks _ ‹_›
+  · split
+    · exact thdrTurn_shrinks _ _ ‹_›
+    · trivial
+
+theorem step_lt {st st' : St} {bs r : Bytes} (h : step st bs = .more st' r) : r.length < bs.length := by
+  have := step_shrinks st bs
+  rw [h] at this
+  exact this
+
+/-- `Parser.Parse` -/
+def parse (bs : Bytes) : St × Res :=
+  match u16 bs 0 with
+  | none => ({}, .err)
+  | some m => if m ≠ 0xFF4F then ({}, .err) else run step step_lt {} (bs.drop 2)
 
 end J2kH
